@@ -662,12 +662,25 @@ type c09Call struct {
 	release chan c09Att
 }
 
+// c09ScriptFwd is the fake DnsForwarder.  Besides answering by script it watches its own lifecycle as the
+// controller's forwardWithDialArg / retire / evict / reset drive it: Close() while one of its exchanges is
+// blocked, an exchange entered after Close(), more than one Close().
 type c09ScriptFwd struct {
 	w  *c09CtlWorld
 	l4 consts.L4ProtoStr
+
+	inFlight          atomic.Int32
+	closes            atomic.Int32
+	closedUnderUse    atomic.Int32
+	enteredAfterClose atomic.Int32
 }
 
 func (f *c09ScriptFwd) ForwardDNS(ctx context.Context, data []byte) (*dnsmessage.Msg, error) {
+	if f.closes.Load() > 0 {
+		f.enteredAfterClose.Add(1)
+	}
+	f.inFlight.Add(1)
+	defer f.inFlight.Add(-1)
 	call := &c09Call{l4: f.l4, data: append([]byte(nil), data...), release: make(chan c09Att, 1)}
 	f.w.mu.Lock()
 	f.w.calls = append(f.w.calls, call)
@@ -716,7 +729,13 @@ func (f *c09ScriptFwd) ForwardDNS(ctx context.Context, data []byte) (*dnsmessage
 	}
 	return m, nil
 }
-func (f *c09ScriptFwd) Close() error { return nil }
+func (f *c09ScriptFwd) Close() error {
+	f.closes.Add(1)
+	if f.inFlight.Load() > 0 {
+		f.closedUnderUse.Add(1)
+	}
+	return nil
+}
 
 type c09Client struct {
 	id    int
@@ -773,6 +792,7 @@ type c09Refresh struct {
 }
 
 type c09CtlWorld struct {
+	fwds    []*c09ScriptFwd
 	callCh  chan *c09Call // when non-nil every upstream exchange that starts is announced here (real-time tests)
 	ctrl    *DnsController
 	mu      sync.Mutex
@@ -1053,7 +1073,11 @@ func c09RunCtlScenario(r *VRand, st *VStream, stat *VStats, routing *componentdn
 	defer w.ctrl.Close()
 	w.ctrl.concurrencyLimiter = make(chan struct{}, 64)
 	dnsForwarderFactory = func(up *componentdns.Upstream, da dialArgument, _ *logrus.Logger) (DnsForwarder, error) {
-		return &c09ScriptFwd{w: w, l4: da.l4proto}, nil
+		f := &c09ScriptFwd{w: w, l4: da.l4proto}
+		w.mu.Lock()
+		w.fwds = append(w.fwds, f)
+		w.mu.Unlock()
+		return f, nil
 	}
 	// clients: few names / types / ids so that coalescing and collisions are the norm
 	nc := 2 + r.Intn(6)
@@ -1245,6 +1269,34 @@ func c09RunCtlScenario(r *VRand, st *VStream, stat *VStats, routing *componentdn
 			stat.Inc("ctl.op.refresh.evicted=" + ev)
 			st.Emit(fmt.Sprintf("C refresh %d %s %s %s %s", rf.client, c.scheme(), a1.tok(), a2.tok(), ev),
 				fmt.Sprintf("pc=none out=- calls=%d cache=%s", len(flights), w.cacheStr()))
+		case len(running) > 0 && r.Chance(0.15):
+			// the forwarder cache is disturbed while upstream exchanges are blocked inside forwardWithDialArg:
+			// failure-path retire, idle eviction, reload reset.  No event of the Ctl model; the fake forwarders
+			// watch what happens to them (closed under an exchange / used after close / closed twice).
+			switch r.Intn(3) {
+			case 0:
+				w.ctrl.dnsForwarderCache.Range(func(k, v any) bool {
+					if e, ok := v.(*cachedDnsForwarder); ok && r.Chance(0.7) {
+						w.ctrl.retireCachedDnsForwarder(k.(dnsForwarderKey), e)
+					}
+					return true
+				})
+				stat.Inc("ctl.fwdlife.retire-while-blocked")
+			case 1:
+				w.ctrl.dnsForwarderCache.Range(func(k, v any) bool {
+					if e, ok := v.(*cachedDnsForwarder); ok {
+						e.lastUsedNano.Store(1)
+					}
+					return true
+				})
+				w.ctrl.dnsForwarderIdleTTL = time.Millisecond
+				w.ctrl.evictIdleDnsForwarders(time.Now())
+				stat.Inc("ctl.fwdlife.evict-while-blocked")
+			default:
+				_ = w.ctrl.ResetDnsForwarders()
+				stat.Inc("ctl.fwdlife.reset-while-blocked")
+			}
+			w.settle(r)
 		case len(running) > 0 && r.Chance(0.1):
 			// drop a cache entry (janitor / LRU / explicit removal)
 			c := w.clients[r.Intn(arrived)]
@@ -1357,6 +1409,37 @@ func c09RunCtlScenario(r *VRand, st *VStream, stat *VStats, routing *componentdn
 	for _, c := range w.clients {
 		if c.fin {
 			stat.Inc("ctl.client.answered")
+		}
+	}
+	// lifecycle of every forwarder the controller created in this scenario (all exchanges are over)
+	cached := map[DnsForwarder]bool{}
+	w.ctrl.dnsForwarderCache.Range(func(_, v any) bool {
+		if e, ok := v.(*cachedDnsForwarder); ok {
+			cached[e.forwarder] = true
+		}
+		return true
+	})
+	w.mu.Lock()
+	fwds := append([]*c09ScriptFwd(nil), w.fwds...)
+	w.mu.Unlock()
+	for i, f := range fwds {
+		bad := ""
+		switch {
+		case f.closedUnderUse.Load() > 0:
+			bad = "closed while one of its upstream exchanges was in flight"
+		case f.enteredAfterClose.Load() > 0:
+			bad = "an upstream exchange was started on it after Close()"
+		case f.closes.Load() > 1:
+			bad = fmt.Sprintf("closed %d times", f.closes.Load())
+		case !cached[f] && f.inFlight.Load() == 0 && f.closes.Load() == 0:
+			bad = "dropped from the forwarder cache and idle, but never closed"
+		}
+		if bad != "" {
+			st.Emit(fmt.Sprintf("C fwdlife forwarder %d of %d (%s): %s", i, len(fwds), f.l4, strings.ReplaceAll(bad, " ", "_")), "violated")
+		}
+		stat.Inc("ctl.fwdlife.forwarders-checked")
+		if f.closes.Load() == 1 {
+			stat.Inc("ctl.fwdlife.closed-once")
 		}
 	}
 }
